@@ -103,13 +103,14 @@ package jet
 //@   callsite (io.ReadCloser).Close count 1
 
 //@ func (*Set).parse
-//@   props C15 C16 C08 C02
+//@   props C15 C16 C08 C02 C11
 //@   requires [set-ok] SetOK(s)
 //@   requires [canonical-name] Canon(name)
 //@   modifies ghost CM, ghost NL
 //@   nopanic
 //@   loop 0 invariant t != nil && -1 <= rangeindex && rangeindex < len(t.imports) && fresh(t) && (t.processedBlocks == nil || fresh(t.processedBlocks)) && visits("(*Template).addBlocks", 1) == rangeindex + 1
 //@   ensures err == nil ==> t != nil && t.Name == name
+//@   check [error-exits-drain-the-lexer] {C02} err != nil ==> ncalls("(*lexer).drain") >= 1
 //@   callsite (*Template).addBlocks 0 requires [extended-chain-has-lowest-precedence] {C08} blocks == caller.t.extends.processedBlocks && ncalls("(*Template).addBlocks") == 0
 //@   callsite (*Template).addBlocks 1 requires [imports-in-order-override-the-extended-chain] {C08} blocks == caller.t.imports[caller.rangeindex + 1].processedBlocks
 //@   callsite (*Template).addBlocks 2 requires [own-blocks-have-highest-precedence] {C08} blocks == caller.t.passedBlocks && visits("(*Template).addBlocks", 1) == len(caller.t.imports)
